@@ -97,6 +97,7 @@ def _blocks(text, m):
     blocks = []
     stack = []
     last_boundary = [0]
+    pdepth = 0
     i, n = 0, len(m)
     while i < n:
         ch = m[i]
@@ -112,7 +113,12 @@ def _blocks(text, m):
                 blocks[b][2] = i
                 last_boundary.pop()
                 last_boundary[-1] = i + 1
-        elif ch == ';':
+        elif ch in '([':
+            pdepth += 1
+        elif ch in ')]':
+            pdepth = max(0, pdepth - 1)
+        elif ch == ';' and pdepth == 0:
+            # a `;` inside `[T; N]` or a parenthesised expression does not end an item
             last_boundary[-1] = i + 1
         i += 1
     return blocks
